@@ -1022,6 +1022,7 @@ def wallet_spec_strategy(ctx, max_ops=6):
         'import_secret': secret_strategy().map(lambda d: '%x' % d),
         'from_account': st.sampled_from([False, False, True]),
         'watch_import': st.sampled_from([None, None, 'address', 'xpub']),
+        'single_cosigners': st.sampled_from([False, False, True]),
         'history': st.lists(st.sampled_from(WALLET_OPS + ['get_key', 'utxos_update', 'send_own']), min_size=2,
                             max_size=max_ops),
         'rng': st.integers(0, 0xffffffff),
@@ -1044,6 +1045,18 @@ def _wallet_inputs(spec):
     if spec['wtype'] == 'single':
         return masters, address.wif(masters[0].secret, net, True)
     keys = []
+    if spec.get('single_cosigners'):
+        # the wallet's own cosigner key(s) are single private keys without derivation data, the other cosigners give
+        # their HD public master (one of the set-ups of examples/wallets_multisig.py)
+        from bitcoinlib.keys import HDKey
+        for m, priv in zip(masters, spec['private']):
+            if priv:
+                keys.append(HDKey(m.xkey(_xver(net, True, wt, True), private=True), key_type='single', network=net,
+                                  witness_type=wt))
+            else:
+                acc = bip32.derive(m, _pm_path(net, wt, True))
+                keys.append(acc.xkey(_xver(net, False, wt, True), private=False))
+        return masters, keys
     for m, priv in zip(masters, spec['private']):
         if priv and spec.get('from_account'):
             acc = bip32.derive(m, _pm_path(net, wt, True))
